@@ -1,6 +1,6 @@
 (* C18 property theorems.  Statements + exact + Check pin + Print Assumptions only. *)
 From ZV.Common Require Import Base.
-From ZV.C18 Require Import Model ProofsQueue ProofsOrder ProofsProgress ProofsPar.
+From ZV.C18 Require Import Model ProofsQueue ProofsOrder ProofsProgress ProofsComplete ProofsPar.
 From Coq Require Import Permutation.
 Open Scope N_scope.
 
@@ -94,6 +94,25 @@ Check drains :
     running (rounds true n e) = running e.
 Print Assumptions drains.
 
+(* After the repair, for every worker count >= 1, capacity, task list and every interleaving so far
+   (tasks in mid-execution included): there is a continuation made of worker steps only (no further
+   submissions) after which every accepted task has been executed (executed list = accepted list up to
+   order), nothing is queued or running and is_idle() holds.  No reachable state is a trap. *)
+Theorem completion_reachable :
+  forall cap nw steps e acc,
+    (0 < nw)%nat -> run true cap (init nw) [] steps = (e, acc) ->
+    exists more, no_submit more /\
+      exists e', run true cap e acc more = (e', acc) /\
+        Permutation (edone e') acc /\ queued e' = [] /\ running e' = [] /\ is_idle e' = true.
+Proof. exact completion_reachable_proof. Qed.
+Check completion_reachable :
+  forall cap nw steps e acc,
+    (0 < nw)%nat -> run true cap (init nw) [] steps = (e, acc) ->
+    exists more, no_submit more /\
+      exists e', run true cap e acc more = (e', acc) /\
+        Permutation (edone e') acc /\ queued e' = [] /\ running e' = [] /\ is_idle e' = true.
+Print Assumptions completion_reachable.
+
 (* The pinned tree (pop_local without the fallback): one worker, six accepted tasks, balance() - three
    tasks stay queued for ever and is_idle() never becomes true. *)
 Theorem parked_task_refuted :
@@ -168,6 +187,20 @@ Check reduce_sequential :
       parallel_reduce_k (fun a b => Some (g a b)) ident (fiber_chunk max_workers (length xs)) xs = Some (fold_left g xs ident) /\
       ((0 < ncpu)%nat -> parallel_reduce_k (fun a b => Some (g a b)) ident (global_chunk ncpu (length xs)) xs = Some (fold_left g xs ident)).
 Print Assumptions reduce_sequential.
+
+(* If the reduce function fails on some item whatever the accumulator, both parallel_reduce variants fail (no partial result is returned). *)
+Theorem reduce_error_surfaces :
+  forall (T : Type) (op : T -> T -> option T) (ident : T) max_workers ncpu xs x,
+    In x xs -> (forall a, op a x = None) ->
+    parallel_reduce_k op ident (fiber_chunk max_workers (length xs)) xs = None /\
+    ((0 < ncpu)%nat -> parallel_reduce_k op ident (global_chunk ncpu (length xs)) xs = None).
+Proof. exact reduce_error_proof. Qed.
+Check reduce_error_surfaces :
+  forall (T : Type) (op : T -> T -> option T) (ident : T) max_workers ncpu xs x,
+    In x xs -> (forall a, op a x = None) ->
+    parallel_reduce_k op ident (fiber_chunk max_workers (length xs)) xs = None /\
+    ((0 < ncpu)%nat -> parallel_reduce_k op ident (global_chunk ncpu (length xs)) xs = None).
+Print Assumptions reduce_error_surfaces.
 
 (* BatchCollector: for every history of add / flush, the emitted batches followed by the buffer are the
    added items in order; with max_batch_size >= 1 no batch is empty or longer than max_batch_size. *)
